@@ -145,3 +145,9 @@ Proof.
          end.
   all: intros [= <-]; eexists; reflexivity.
 Qed.
+
+Lemma comparators_asymmetric a b :
+  (toks_less a b = true -> toks_less b a = false) /\
+  (exclude_less a b = true -> exclude_less b a = false) /\
+  (retract_less a b = true -> retract_less b a = false).
+Proof. split; [apply toks_less_asym | split; [apply exclude_less_asym | apply retract_less_asym]]. Qed.
